@@ -7,6 +7,7 @@ CONSTANTS NBlocks,     \* blocks per tree (besides genesis)
           NTx,         \* transactions in the universe
           MaxFork,     \* longest branch off the first-born ("main") line
           Schemes,     \* subset of {"hash", "path"}
+          Trees,       \* the block trees to explore (cfg: Trees <- GenTrees or an explicit set)
           Depth        \* length of emitted behaviours (simulation)
 
 VARIABLES act, hist
@@ -27,8 +28,11 @@ TxOf(p, b) == LET k == ((b - 1) % NTx) + 1 IN
 FirstBorn(p, b) == \A c \in 1..Len(p) : (p[c] = p[b] /\ c # b) => c > b
 RECURSIVE OffMain(_, _)
 OffMain(p, b) == IF b = 0 THEN 0 ELSE IF FirstBorn(p, b) /\ OffMain(p, p[b]) = 0 THEN 0 ELSE 1 + OffMain(p, p[b])
-Trees == {[parent |-> p, txs |-> [b \in 1..NBlocks |-> TxOf(p, b)], ntx |-> NTx] :
+GenTrees == {[parent |-> p, txs |-> [b \in 1..NBlocks |-> TxOf(p, b)], ntx |-> NTx] :
             p \in {q \in Shapes(NBlocks) : \A b \in 1..NBlocks : OffMain(q, b) <= MaxFork}}
+
+(* the shapes behind the candidate findings of NOTES.md *)
+FindingTrees == {[parent |-> <<0, 1, 2, 3, 0>>, txs |-> <<<<1>>, <<2>>, <<>>, <<>>, <<1>>>>, ntx |-> 2]}
 
 MCInit == /\ \E t \in Trees, sc \in Schemes : InitWith(t, sc)
           /\ act = [op |-> "init"] /\ hist = <<>>
